@@ -103,6 +103,47 @@ def trace_validation(res, work, n, max_operands=25):
         res.sample({"random_expression": traces[-1]["expr"], "tokens": len(traces[-1]["toks"]), "real_grouping": traces[-1]["tree"]})
 
 
+def deep_nesting(res, depths):
+    """bracket nesting far beyond the bounded model (the documented reading is the same at every depth: brackets bind tightest): an expression nested d levels
+    to the right / to the left must come back as exactly that chain - walked iteratively, operand by operand"""
+    import ahb  # noqa: F401
+    from ahbicht.expressions.condition_expression_parser import parse_condition_expression_to_tree
+    from lark import Tree
+    ops = [("O", "or_composition"), ("\u2227", "and_composition"), ("X", "xor_composition"), ("u", "and_composition"), ("\u2228", "or_composition")]
+    for d in depths:
+        for side in ("right", "left"):
+            expr, chain = "[1] U [2]", []
+            for lvl in range(1, d + 1):
+                sym, rule = ops[lvl % len(ops)]
+                key = 1000 + lvl
+                expr = f"[{key}] {sym} ({expr})" if side == "right" else f"({expr}) {sym} [{key}]"
+                chain.append((rule, str(key)))
+            res.count("parses")
+            res.distinct(("deep", d, side), nontrivial=True)
+            try:
+                node = parse_condition_expression_to_tree(expr)
+            except BaseException as e:  # pylint:disable=broad-except
+                res.violation(f"an expression nested {d} levels to the {side} is rejected with {type(e).__name__}", {"kind": "deep", "depth": d, "side": side})
+                continue
+            problem = None
+            for lvl, (rule, key) in enumerate(reversed(chain)):
+                kids = node.children if isinstance(node, Tree) else []
+                if not isinstance(node, Tree) or str(node.data) != rule or len(kids) != 2:
+                    problem = f"level {lvl} is {getattr(node, 'data', node)!s} instead of {rule}"
+                    break
+                leaf, rest = (kids[0], kids[1]) if side == "right" else (kids[1], kids[0])
+                if not (isinstance(leaf, Tree) and str(leaf.data) == "condition" and str(leaf.children[0].value) == key):
+                    problem = f"the single operand of level {lvl} is not [{key}]"
+                    break
+                node = rest
+            if problem is None and ahb.cond_tree_binary(node) != ("and", ("leaf", "key", "1"), ("leaf", "key", "2")):
+                problem = "the innermost bracket is not [1] U [2]"
+            if problem:
+                res.violation(f"an expression nested {d} levels to the {side} with brackets is grouped differently from its brackets: {problem}",
+                              {"kind": "deep", "depth": d, "side": side})
+    res.coverage["deep_nesting_depths"] = list(depths)
+
+
 def run():
     res = Result(PID)
     work = Work(PID)
@@ -132,6 +173,7 @@ def run():
     res.coverage["traces_validated_against_impl"] += res.coverage.get("parses", 0)
     dump.unlink()
     trace_validation(res, work, 6000 if thorough else 800)
+    deep_nesting(res, (30, 270, 400, 800) if thorough else (30, 270, 400))
     res.coverage["exhaustive"] = True
     res.coverage["rule"] = (f"every well-formed token sequence <= {n} tokens (operand, brackets, U, X, O, juxtaposition) is one case, rendered plain and in "
                             f"{variants} seeded variants (operand kinds [n]/[nP]/[nPa..b]/[UBi], six operator spellings mixed within one expression, "
@@ -144,6 +186,12 @@ def run():
 def replay(case):
     import ahb  # noqa: F401
     from evalcheck import _tuplify
+    if case.get("kind") == "deep":
+        res = Result(PID)
+        deep_nesting(res, (case["depth"],))
+        for d, _ in res.violations:
+            print(d)
+        return 1 if res.violations else 0
     toks = case["tokens"]
     try:
         tree, texts = real_canon(case["expr"], toks)
